@@ -103,6 +103,48 @@ func (k cell) initialStores(c *core.Ctx, fn *ssa.Function, _ ssa.Value) []*ssa.S
 	return out
 }
 
+// cellAt names the persistent location behind an address used in fn: a captured variable, or a field of fn's
+// receiver.
+func cellAt(fn *ssa.Function, addr ssa.Value) (cell, bool) {
+	switch x := addr.(type) {
+	case *ssa.FreeVar:
+		return cell{name: x.Name(), fv: x}, true
+	case *ssa.FieldAddr:
+		if fn.Signature.Recv() != nil && len(fn.Params) > 0 && an.Strip(x.X) == ssa.Value(fn.Params[0]) {
+			if f := an.FieldOfAddr(x); f != nil {
+				return cell{name: f.Name(), fld: f}, true
+			}
+		}
+	}
+	return cell{}, false
+}
+
+func (k cell) valid() bool { return k.fv != nil || k.fld != nil }
+
+// elem is the type of the value the cell holds.
+func (k cell) elem() types.Type {
+	if k.fv != nil {
+		if p, ok := k.fv.Type().(*types.Pointer); ok {
+			return p.Elem()
+		}
+		return k.fv.Type()
+	}
+	if k.fld != nil {
+		return k.fld.Type()
+	}
+	return nil
+}
+
+// initial returns the values the cell is initialised with outside fn: the stores into the captured variable in
+// the enclosing function, or the stores into the field elsewhere in the module.
+func (k cell) initial(c *core.Ctx, fn *ssa.Function) []ssa.Value {
+	var out []ssa.Value
+	for _, st := range k.initialStores(c, fn, nil) {
+		out = append(out, st.Val)
+	}
+	return out
+}
+
 func freeCell(fn *ssa.Function, name string) (cell, bool) {
 	for _, fv := range fn.FreeVars {
 		if fv.Name() == name {
@@ -227,6 +269,25 @@ func nonNegReturns(c *core.Ctx, r *core.Report, fn *ssa.Function, nonneg func(v 
 
 func returnNonNeg(ret *ssa.Return, v ssa.Value, nonneg func(v ssa.Value) (bool, string)) (bool, string) {
 	v = noConv(v)
+	// a result of a same-module helper: every return of the helper must be non-negative at that position
+	if ex, ok := v.(*ssa.Extract); ok {
+		if call, isCall := ex.Tuple.(*ssa.Call); isCall {
+			if t := an.Callee(call); t != nil && t.Blocks != nil && core.InModule(t) && t != ret.Parent() {
+				rets := an.Returns(t)
+				for _, hr := range rets {
+					if ex.Index >= len(hr.Results) {
+						return false, "helper result missing"
+					}
+					if ok, why := returnNonNeg(hr, hr.Results[ex.Index], nil); !ok {
+						return false, "helper " + t.Name() + ": " + why
+					}
+				}
+				if len(rets) > 0 {
+					return true, "every return of helper " + t.Name() + " is non-negative at this position"
+				}
+			}
+		}
+	}
 	if k, ok := v.(*ssa.Const); ok && k.Value != nil {
 		if k.Int64() >= 0 {
 			return true, "constant " + k.Value.String()
